@@ -297,6 +297,7 @@ func sscanInt(s string, v *int) (int, error) { return fmt.Sscanf(s, "%d", v) }
 type fullLoop struct {
 	Stmt ast.Stmt
 	Body *ast.BlockStmt
+	Idx  types.Object // the index variable, if any
 	// IsElem reports whether e denotes the current element (the range value, or S[i]).
 	IsElem func(e ast.Expr) bool
 }
@@ -332,7 +333,7 @@ func fullLoopsOver(info *types.Info, root ast.Node, isSrc func(e ast.Expr) bool)
 				vv = prog.IdentObj(info, lp.Value)
 			}
 			x := lp.X
-			out = append(out, fullLoop{Stmt: lp, Body: lp.Body, IsElem: func(e ast.Expr) bool {
+			out = append(out, fullLoop{Stmt: lp, Body: lp.Body, Idx: iv, IsElem: func(e ast.Expr) bool {
 				e = ast.Unparen(e)
 				if vv != nil && prog.IdentObj(info, e) == vv {
 					return true
@@ -344,19 +345,29 @@ func fullLoopsOver(info *types.Info, root ast.Node, isSrc func(e ast.Expr) bool)
 			}})
 		case *ast.ForStmt:
 			as, ok := lp.Init.(*ast.AssignStmt)
-			if !ok || len(as.Lhs) != 1 || len(as.Rhs) != 1 {
+			if !ok || len(as.Lhs) != len(as.Rhs) {
 				return true
 			}
-			iv := prog.IdentObj(info, as.Lhs[0])
-			if tv, ok := info.Types[as.Rhs[0]]; !ok || tv.Value == nil || tv.Value.String() != "0" || iv == nil {
+			b, ok := ast.Unparen(lp.Cond).(*ast.BinaryExpr)
+			if !ok {
+				return true
+			}
+			// the counter is the header variable the condition tests
+			iv := prog.IdentObj(info, b.X)
+			k := -1
+			for i, l := range as.Lhs {
+				if iv != nil && prog.IdentObj(info, l) == iv {
+					k = i
+				}
+			}
+			if k < 0 {
+				return true
+			}
+			if tv, ok := info.Types[as.Rhs[k]]; !ok || tv.Value == nil || tv.Value.String() != "0" {
 				return true
 			}
 			inc, ok := lp.Post.(*ast.IncDecStmt)
 			if !ok || inc.Tok != token.INC || prog.IdentObj(info, inc.X) != iv {
-				return true
-			}
-			b, ok := ast.Unparen(lp.Cond).(*ast.BinaryExpr)
-			if !ok || prog.IdentObj(info, b.X) != iv {
 				return true
 			}
 			// the bound: len(S) (with < or !=) or len(S)-1 (with <=)
@@ -380,7 +391,7 @@ func fullLoopsOver(info *types.Info, root ast.Node, isSrc func(e ast.Expr) bool)
 				return true
 			}
 			sx := types.ExprString(ast.Unparen(lenArg))
-			out = append(out, fullLoop{Stmt: lp, Body: lp.Body, IsElem: func(e ast.Expr) bool {
+			out = append(out, fullLoop{Stmt: lp, Body: lp.Body, Idx: iv, IsElem: func(e ast.Expr) bool {
 				ix, ok := ast.Unparen(e).(*ast.IndexExpr)
 				return ok && prog.IdentObj(info, ix.Index) == iv && types.ExprString(ast.Unparen(ix.X)) == sx
 			}})
